@@ -121,22 +121,28 @@ pub const NOPT: usize = 5;
 fn opt_time(round: usize, term: usize, opt: usize) -> i64 {
     let base = -25 + 10 * round as i64;
     match opt {
-        1 | 2 => base + 1 + term as i64,
-        3 => base,
+        1 | 2 | 5 => base + 1 + term as i64,
+        3 | 6 => base,
         _ => base - 12,
     }
+}
+/// options 5 and 6 (thorough tier): A newest / B at the shared time written *directly into the
+/// device terminal* even when it is connected to an external terminal
+pub const NOPT_DIRECT: usize = 7;
+fn opt_is_a(opt: usize) -> bool {
+    opt == 1 || opt == 3 || opt == 5
 }
 fn opt_show(mode: Mode, round: usize, term: usize, opt: usize) -> String {
     if opt == 0 {
         return "-".into();
     }
     let what = match (mode, opt) {
-        (Mode::State, 1) | (Mode::State, 3) => "sA",
+        (Mode::State, o) if opt_is_a(o) => "sA",
         (Mode::State, _) => "sB",
-        (Mode::Command, 1) | (Mode::Command, 3) => "cA",
+        (Mode::Command, o) if opt_is_a(o) => "cA",
         (Mode::Command, _) => "cB",
     };
-    format!("{}@{}", what, opt_time(round, term, opt))
+    format!("{}{}@{}", what, if opt >= 5 { "(direct)" } else { "" }, opt_time(round, term, opt))
 }
 
 #[derive(Clone, Debug, Default, PartialEq, Eq, Hash)]
@@ -182,11 +188,11 @@ pub fn run_rounds(kind: Kind, mask: u32, rounds: &[Vec<usize>], mode: Mode) -> V
             if o == 0 {
                 continue;
             }
-            let target: &Term = if mask >> i & 1 == 1 { &xs[i] } else { dev.term(i) };
+            let target: &Term = if mask >> i & 1 == 1 && o < 5 { &xs[i] } else { dev.term(i) };
             let t = Time(opt_time(k, i, o));
             match mode {
-                Mode::State => target.borrow_mut().set(Datum::new(t, if o == 1 || o == 3 { SA } else { SB })).unwrap(),
-                Mode::Command => target.borrow_mut().set(Datum::new(t, if o == 1 || o == 3 { CA } else { CB })).unwrap(),
+                Mode::State => target.borrow_mut().set(Datum::new(t, if opt_is_a(o) { SA } else { SB })).unwrap(),
+                Mode::Command => target.borrow_mut().set(Datum::new(t, if opt_is_a(o) { CA } else { CB })).unwrap(),
             }
         }
         let rd = |t: &Term| if mode == Mode::State { read_s(t) } else { read_c(t) };
@@ -480,6 +486,9 @@ fn all_masks(n: usize) -> Vec<u32> {
 
 /// sequences of exactly `depth` rounds; a round = one option per terminal
 fn explore(e: &mut Eng, kind: Kind, depth: usize, mode: Mode, time_only: bool, budget: Budget) {
+    explore_n(e, kind, depth, mode, time_only, budget, NOPT, None)
+}
+fn explore_n(e: &mut Eng, kind: Kind, depth: usize, mode: Mode, time_only: bool, budget: Budget, nopt: usize, only_mask: Option<u32>) {
     let n = kind.n();
     if n == 0 {
         // an axle without terminals: update must simply succeed
@@ -495,14 +504,14 @@ fn explore(e: &mut Eng, kind: Kind, depth: usize, mode: Mode, time_only: bool, b
         }
         return;
     }
-    let per_round = ipow(NOPT as u64, n) as usize;
-    for mask in all_masks(n) {
+    let per_round = ipow(nopt as u64, n) as usize;
+    for mask in all_masks(n).into_iter().filter(|m| only_mask.map(|x| x == *m).unwrap_or(true)) {
         par_seqs(e, per_round, depth, budget, |seq, e| {
             let rounds: Vec<Vec<usize>> = seq
                 .iter()
                 .map(|&code| {
                     let mut o = vec![0usize; n];
-                    decode(code as u64, NOPT as u64, &mut o);
+                    decode(code as u64, nopt as u64, &mut o);
                     o
                 })
                 .collect();
@@ -712,7 +721,13 @@ fn state_engines(ctx: &Ctx, time_only: bool, tag: &str) -> Vec<Eng> {
         explore(&mut e1, k, d2, Mode::State, time_only, budget);
         explore_sparse(&mut e1, k, if deep { 3 } else { 2 }, Mode::State, time_only, budget);
     }
-    e1.bounds = format!("depth {} => 25^{} round sequences x 4 connection subsets x 7 devices; plus all 8-round sequences with <= {} non-empty rounds", d2, d2, if deep { 3 } else { 2 });
+    if deep {
+        // connected terminals additionally written directly (own slot and partner slot both carry data)
+        for &k in &kinds {
+            explore_n(&mut e1, k, 3, Mode::State, time_only, budget, NOPT_DIRECT, Some(3));
+        }
+    }
+    e1.bounds = format!("depth {} => 25^{} round sequences x 4 connection subsets x 7 devices; plus all 8-round sequences with <= {} non-empty rounds{}", d2, d2, if deep { 3 } else { 2 }, if deep { "; plus 49^3 round sequences with direct writes into connected device terminals" } else { "" });
     let mut e2 = Eng::new(
         &format!("{}-axle-differential", tag),
         "Axle<N> for N=0..6 and Differential in all four trust modes, same round alphabet and oracle (axle: mean over terminals with data written to all; differential: distrusted branch recomputed from the other two, equal trust = Lagrange solution, nothing happens until every trusted branch has data)",
@@ -753,6 +768,11 @@ fn command_engines(ctx: &Ctx, time_only: bool, tag: &str) -> Vec<Eng> {
     for &k in &kinds {
         explore(&mut e1, k, d2, Mode::Command, time_only, budget);
         explore_sparse(&mut e1, k, if deep { 3 } else { 2 }, Mode::Command, time_only, budget);
+    }
+    if deep {
+        for &k in &kinds {
+            explore_n(&mut e1, k, 3, Mode::Command, time_only, budget, NOPT_DIRECT, Some(3));
+        }
     }
     let d3 = if deep { 3 } else { 2 };
     for n in 1..=6usize {
